@@ -225,39 +225,81 @@ def doFrame : List String → String
     | none => bad
   | _ => bad
 
+
+/-! ### transition coverage of the decoder model (which (state, byte class, result) cells a run exercised) -/
+
+def covSize : Nat := 17 * 5 * 7
+
+def stIdx : DState → Nat
+  | .look _ init => min init 7
+  | .normal => 8
+  | .escChars n => 8 + min (max n 1) 3
+  | .escPayload step _ => 12 + min step 3
+  | .done => 16
+
+def clsIdx (b : UInt8) : Nat :=
+  if b = 0x00 then 0 else if b = 0x1b then 1 else if b = 0x01 then 2 else if b = 0x1a then 3 else 4
+
+def resIdx : Out → Nat
+  | .none => 0
+  | .msg _ => 1
+  | .err (.discarded _) => 2
+  | .err (.invalidEsc ..) => 3
+  | .err .oom => 4
+  | .err (.invalidMsg ..) => 5
+  | .panic _ => 6
+
+def stName (i : Nat) : String :=
+  if i < 8 then s!"look{i}" else if i = 8 then "normal" else if i < 12 then s!"esc{i - 8}" else if i < 16 then s!"pay{i - 12}" else "done"
+def clsName (i : Nat) : String := match i with | 0 => "00" | 1 => "1b" | 2 => "01" | 3 => "1a" | _ => "xx"
+def resName (i : Nat) : String := match i with | 0 => "none" | 1 => "ok" | 2 => "disc" | 3 => "esc" | 4 => "oom" | 5 => "inv" | _ => "panic"
+
+def covBump (cov : Array Nat) (d : Dec) (b : UInt8) (o : Out) : Array Nat :=
+  let i := (stIdx d.st * 5 + clsIdx b) * 7 + resIdx o
+  if h : i < cov.size then cov.set i (cov[i] + 1) else cov
+
+def showCov (cov : Array Nat) : String :=
+  let cells := (List.range cov.size).filterMap fun i =>
+    let n := cov[i]!
+    if n = 0 then none else some s!"{stName (i / 35)}/{clsName (i / 7 % 5)}/{resName (i % 7)}={n}"
+  joinSp cells
+
 /-- `dec <cap> <op>*` with ops = byte-string tokens, `F`, `R` -/
-def doDec : List String → String
+def doDec (cov : Array Nat) : List String → String × Array Nat
   | cap :: ops =>
     match parseCap cap with
-    | none => bad
+    | none => (bad, cov)
     | some cap =>
-      let rec pushBytes (d : Dec) (idx : Nat) (acc : List String) : List UInt8 → Dec × Nat × List String
-        | [] => (d, idx, acc)
+      let rec pushBytes (d : Dec) (idx : Nat) (acc : List String) (cov : Array Nat) :
+          List UInt8 → Dec × Nat × List String × Array Nat
+        | [] => (d, idx, acc, cov)
         | b :: bs =>
           let (d', o) := d.push b
+          let cov := covBump cov d b o
           let idx := idx + 1
           match showOut o with
-          | none => pushBytes d' idx acc bs
-          | some s => pushBytes d' idx (s!"{idx}:{s}" :: acc) bs
-      let rec go (d : Dec) (idx : Nat) (acc : List String) : List String → Option (List String)
-        | [] => some acc.reverse
+          | none => pushBytes d' idx acc cov bs
+          | some s => pushBytes d' idx (s!"{idx}:{s}" :: acc) cov bs
+      let rec go (d : Dec) (idx : Nat) (acc : List String) (cov : Array Nat) :
+          List String → Option (List String) × Array Nat
+        | [] => (some acc.reverse, cov)
         | "F" :: rest =>
           let (d', e) := d.finalize
           let s := match e with | none => s!"{idx}:F:-" | some e => s!"{idx}:F:{showErr e}"
-          go d' idx (s :: acc) rest
+          go d' idx (s :: acc) cov rest
         | "R" :: rest =>
           let (d', n) := d.reset
-          go d' idx (s!"{idx}:R:{n}" :: acc) rest
+          go d' idx (s!"{idx}:R:{n}" :: acc) cov rest
         | tok :: rest =>
           match parseBytes tok with
-          | none => none
+          | none => (none, cov)
           | some bs =>
-            let (d', idx', acc') := pushBytes d idx acc bs
-            go d' idx' acc' rest
-      match go (Dec.fresh cap) 0 [] ops with
-      | none => bad
-      | some evs => joinSp evs
-  | _ => bad
+            let (d', idx', acc', cov') := pushBytes d idx acc cov bs
+            go d' idx' acc' cov' rest
+      match go (Dec.fresh cap) 0 [] cov ops with
+      | (none, cov) => (bad, cov)
+      | (some evs, cov) => (joinSp evs, cov)
+  | _ => (bad, cov)
 
 /-- `decode <bytes>`: the `decode()` front-end -/
 def doDecode : List String → String
@@ -457,38 +499,42 @@ def doCrc : List String → String
     | none => bad
   | _ => bad
 
-def handle (line : String) : String :=
+def handle (cov : Array Nat) (line : String) : String × Array Nat :=
   match (line.trimAscii.toString.splitOn " ").filter (· ≠ "") with
-  | "enc" :: args => doEnc args
-  | "enci" :: args => doEnci args
-  | "frame" :: args => doFrame args
-  | "dec" :: args => doDec args
-  | "decode" :: args => doDecode args
-  | "iter" :: args => doIter args
-  | "rdr" :: args => doRdr args
-  | "sml" :: args => doSml args
-  | "abuf" :: args => doAbuf args
-  | "tlf" :: args => doTlf args
-  | "prim" :: args => doPrim args
-  | "parse" :: args => doParse args
-  | "stream" :: args => doStream args
-  | "crc" :: args => doCrc args
-  | _ => bad
+  | "dec" :: args => doDec cov args
+  | ["stats"] => (showCov cov, cov)
+  | "enc" :: args => (doEnc args, cov)
+  | "enci" :: args => (doEnci args, cov)
+  | "frame" :: args => (doFrame args, cov)
+  | "decode" :: args => (doDecode args, cov)
+  | "iter" :: args => (doIter args, cov)
+  | "rdr" :: args => (doRdr args, cov)
+  | "sml" :: args => (doSml args, cov)
+  | "abuf" :: args => (doAbuf args, cov)
+  | "tlf" :: args => (doTlf args, cov)
+  | "prim" :: args => (doPrim args, cov)
+  | "parse" :: args => (doParse args, cov)
+  | "stream" :: args => (doStream args, cov)
+  | "crc" :: args => (doCrc args, cov)
+  | _ => (bad, cov)
 
-partial def loop (hin hout : IO.FS.Stream) : IO Unit := do
+partial def loop (hin hout : IO.FS.Stream) (cov : Array Nat) : IO Unit := do
   let line ← hin.getLine
   if line.isEmpty then
     hout.flush
     return ()
   -- a leading `@` asks for the response to be flushed at once (interactive use by the shrinker)
   if line.startsWith "@" then
-    hout.putStrLn (handle (line.drop 1).toString)
+    let (r, cov) := handle cov (line.drop 1).toString
+    hout.putStrLn r
     hout.flush
+    loop hin hout cov
   else
-    hout.putStrLn (handle line)
-  loop hin hout
+    let (r, cov) := handle cov line
+    hout.putStrLn r
+    loop hin hout cov
 
 def main : IO Unit := do
   let hin ← IO.getStdin
   let hout ← IO.getStdout
-  loop hin hout
+  loop hin hout (Array.replicate covSize 0)
